@@ -29,7 +29,7 @@ ASSUMPTIONS = [
 ]
 
 RETRYABLE = {"conn-timeout", "conn-error", "429", "502", "503", "504", "items-429", "items-503"}
-BASE = ["ok", "conn-timeout", "conn-error", "429", "502", "503", "504", "400", "401", "403", "404", "500", "transport-error"]
+BASE = ["ok", "conn-timeout", "conn-error", "429", "502", "503", "504", "400", "401", "403", "404", "500", "507", "transport-error"]
 BULK_EXTRA = ["items-429", "items-503", "items-400", "items-429+400", "items-11x429+400"]
 
 # 14 documents per bulk, so that more than ten items of one response can fail
@@ -165,6 +165,7 @@ CAUSE_TOKEN = {
     "400": "boom_400",
     "404": "boom_404",
     "500": "boom_500",
+    "507": "boom_507",  # a 5xx status above 504 is not one of the transient ones
     "transport-error": "cannot-serialize",
     "items-400": "mapper_parsing_exception",
     "items-429+400": "mapper_parsing_exception",
@@ -194,7 +195,7 @@ def run_one(op, word, before=()):
         CLOCK.start()
         try:
             OPS[op0][0](ec)
-        except exceptions.RallyError:
+        except BaseException:  # noqa -- the earlier call only sets the stage here; how it ends is judged where it is the call under test
             pass
         finally:
             CLOCK.stop()
@@ -238,7 +239,10 @@ def check_one(op, word, res, before=()):
         break
     problem = None
     n = len(log)
-    if n != want_attempts:
+    if want is None:
+        # every scripted outcome is retryable and the budget is not used up: the call has to ask for a further attempt (overrun); it ended instead
+        problem = (f"gave-up-instead-of-retrying-after-{classify(op, word[-1]) if word else 'nothing'}", f"{n} requests for {len(word)} retryable outcomes, final={final}")
+    elif n != want_attempts:
         if n > want_attempts:
             last = word[want_attempts - 1]
             problem = (f"repeated-after-{classify(op, last)}", f"{n} requests, expected {want_attempts}")
@@ -251,7 +255,7 @@ def check_one(op, word, res, before=()):
             if not (2**k <= s < 2**k + 1):
                 problem = ("backoff", f"pause {k} was {s}, expected within [{2 ** k}, {2 ** k + 1})")
                 break
-    if problem is None:
+    if problem is None and want is not None:
         if want[0] == "ret":
             if final[0] != "ret":
                 problem = ("success-not-returned", f"final={final}")
